@@ -392,7 +392,7 @@ func (e *SpecEnv) selector(n *ast.SelectorExpr) Val {
 			if id.Name == "g" {
 				return e.ghost(n.Sel.Name)
 			}
-			if p := u.W.findPackage(e.pkg, id.Name); p != nil {
+			if p := u.W.findPackage(e.pkg, id.Name, n.Sel.Name); p != nil {
 				if e.frame == nil || !e.frame.hasLocal(id.Name) {
 					obj := p.Scope().Lookup(n.Sel.Name)
 					if obj == nil {
@@ -620,7 +620,7 @@ func (e *SpecEnv) call(n *ast.CallExpr) Val {
 	// pkg.specFunc(...)
 	if se, ok := n.Fun.(*ast.SelectorExpr); ok {
 		if id, ok := se.X.(*ast.Ident); ok {
-			if p := u.W.findPackage(e.pkg, id.Name); p != nil {
+			if p := u.W.findPackage(e.pkg, id.Name, ""); p != nil {
 				if _, shadow := e.vars[id.Name]; !shadow {
 					if sp := u.W.specFunc(p, se.Sel.Name); sp != nil && sp.Pkg == p.Path() {
 						return e.applySpec(sp, n.Args)
@@ -659,7 +659,7 @@ func (e *SpecEnv) goCall(n *ast.CallExpr) Val {
 	case *ast.SelectorExpr:
 		if id, ok := f.X.(*ast.Ident); ok {
 			if _, shadow := e.vars[id.Name]; !shadow {
-				if p := u.W.findPackage(e.pkg, id.Name); p != nil && (e.frame == nil || !e.frame.hasLocal(id.Name)) {
+				if p := u.W.findPackage(e.pkg, id.Name, f.Sel.Name); p != nil && (e.frame == nil || !e.frame.hasLocal(id.Name)) {
 					if o, ok := p.Scope().Lookup(f.Sel.Name).(*types.Func); ok {
 						fnObj = o
 					}
